@@ -60,6 +60,55 @@ def touch_invariance(ctx, name, progs, limit):
                               program=tp[n], impl=o2[k][n][:600], plain=o1[k][n][:600])
 
 
+DERIVE_OPS = [["with_fragment", "z"], ["with_query", "a=1"], ["with_query", ["seq", ["k", "v"]]], ["update_query", ["seq", ["k", "v"], ["a", "9"]]],
+              ["update_query", ["map", ["k", "v"]]], ["update_query", "k=v&a=9"], ["extend_query", ["seq", ["k", "v"]]], ["extend_query", ["map", ["a", "2"]]],
+              ["without_query_params", ["a"]], ["with_path", "/zz", False, False, False], ["with_name", "n.x", False, False], ["with_suffix", ".s", False, False],
+              ["div", "seg"], ["joinpath", ["a", "b"], False], ["parent"], ["origin"], ["relative"], ["with_scheme", "https"], ["with_host", "other.example"],
+              ["with_port", 8081], ["with_user", "w"], ["with_password", "pw"], ["pickle"]]
+
+
+def source_invariance(ctx, name, progs, limit, ops=None):
+    """every program P against P followed by a derivation from its result that is thrown away: the source URL must be
+    observed exactly as before (a URL never changes after creation; no argument or receiver is altered)"""
+    ops = ops or DERIVE_OPS
+    base = [p for p in progs if p][:limit]
+    if not base:
+        return
+    rng = ctx.rng
+    dp = [p + [["derive"] + rng.choice(ops)] + ([["derive"] + rng.choice(ops)] if rng.random() < 0.3 else []) for p in base]
+    o1 = observe(ctx, name + "-plain", base)
+    o2 = observe(ctx, name + "-after-derivation", dp)
+    for k in backends(o1):
+        for n, p in enumerate(base):
+            if o1[k][n] != o2[k][n]:
+                ctx.violation(kind="predicate-failure", suite=name, backend=k,
+                              predicate="a URL is observed identically before and after another URL was derived from it",
+                              program=dp[n], impl=o2[k][n][:600], plain=o1[k][n][:600])
+
+
+SELF_TEXTS = ["%FF", "%C3", "%E2%82", "%ED%A0%80", "100%25", "a%20b", "%D1%84", "%25FF", "%41", "%2F", "x%zz", "%", "a+b", "%2B", "~", "%7E", "%7e"]
+
+
+def reapply_cases(base, texts):
+    """(component, text, program): the modifier is given a text the RECEIVER already holds - as its decoded value
+    (the modifier applied twice) or, verbatim, as its stored raw text (encoded=True receiver): the outcome must be
+    that of the same call on any other receiver"""
+    out = []
+    for t in texts:
+        emb = bool(t) and all(33 <= ord(c) < 127 and c not in "/?#@:[]\\" for c in t)
+        for comp, name in (("user", "with_user"), ("password", "with_password"), ("fragment", "with_fragment")):
+            out.append((comp, t, base + [["op", name, t], ["touch"], ["op", name, t]]))
+            if emb:
+                raw = {"user": f"http://{t}:p@h/a/b?q=1#f", "password": f"http://u:{t}@h/a/b?q=1#f", "fragment": f"http://u:p@h/a/b?q=1#{t}"}[comp]
+                out.append((comp, t, [["push", ["enc", raw]], ["touch"], ["op", name, t]]))
+        out.append(("name", t, base + [["op", "with_name", t, False, False], ["touch"], ["op", "with_name", t, False, False]]))
+        if emb:
+            out.append(("name", t, [["push", ["enc", f"http://h/a/{t}"]], ["touch"], ["op", "with_name", t, False, False]]))
+            out.append(("path", "/" + t, [["push", ["enc", f"http://h/{t}"]], ["touch"], ["op", "with_path", "/" + t, False, False, False]]))
+            out.append(("query", t, [["push", ["enc", f"http://h/p?{t}"]], ["touch"], ["op", "with_query", t]]))
+    return out
+
+
 def observe(ctx, name, progs, profile=2, **kw):
     reqs = [("observe", [profile, p]) for p in progs]
     return core.check_suite(ctx, name, reqs, split=True,
